@@ -88,7 +88,8 @@ TOL = 1e-8
 
 def classes(tier):
     return ["builtin", "custom", "custom_structured", "nonunitary", "siblings", "symbolic", "replace", "k1_targets",
-            "spelled", "bigpow", "near_structured", "spelled_entries", "k7_targets", "k8_targets", "pairs_exh"]
+            "spelled", "bigpow", "near_structured", "spelled_entries", "k7_targets", "k8_targets", "pairs_exh",
+            "reread", "after_failure"]
 
 
 # ----------------------------------------------------------------------------- reference
@@ -1208,6 +1209,92 @@ def run_case(ctx):
         chain = [("power_frac", 1 / q1), ("power_frac", 1 / q2)]
         ctx.describe(f"k7 {name}.{_chain_str(chain)}", True)
         _run_chain(ctx, base, name, chain)
+        return
+    if cls == "reread":
+        # ONE gate object asked for its matrix again after the caller has edited, in place, the matrix it got the
+        # first time (a matrix handed out is the caller's), and its neighbours in the chain asked again too: a result
+        # kept on the instance and handed out itself, or a matrix that IS another gate's matrix (M**1 is M), shows
+        from orquestra.quantum import circuits as C
+
+        names = ["X", "S", "H", "SX", "CNOT", "CZ", "RX", "RY", "PHASE", "GPi2", "XX", "custom"]
+        nm = rng.choice(names)
+        if nm == "custom":
+            g, d = GC.numeric_custom_def(rng, nprng, 1, f"Reread{ctx.index}")(), "custom1q"
+        elif nm in ("RX", "RY", "PHASE", "GPi2", "XX"):
+            ang = round(rng.uniform(-3, 3), 3)
+            g, d = getattr(C, nm)(ang), f"{nm}({ang})"
+        else:
+            g, d = getattr(C, nm), nm
+        cheap = nm in CHEAP
+        steps = [("power_int", 1), ("power_int", 2), ("power_int", -1), ("power_int", 3), ("dagger",), ("controlled", 1)]
+        if g.num_qubits == 1 and nm not in NO_EXP:
+            steps += [("exp",), ("exp",), ("power_frac", 1 / 2)]
+        chain = []
+        for m in [rng.choice(steps) for _ in range(rng.randint(1, 3))]:
+            if m[0] == "controlled" and g.num_qubits + sum(x[1] for x in chain if x[0] == "controlled") + 1 > max_width:
+                continue
+            if _may_append(chain, m, g.num_qubits, cheap, dense=(nm == "custom")):
+                chain.append(m)
+        ctx.describe(f"reread {d}.{_chain_str(chain)}", len(chain) >= 1)
+        gates = [g]
+        for m in chain:
+            try:
+                gates.append(GC.apply_modifier(gates[-1], m))
+            except Exception as e:
+                ctx.check("step:" + m[0], False, f"({gates[-1]}).{m[0]} raised {e!r}")
+                return
+        first = []
+        for x in gates:
+            try:
+                first.append(GC.to_np(x.matrix))
+            except Exception as e:
+                if _sympy_internal(e):
+                    return
+                raise
+        for k, x in enumerate(gates):
+            Ms = x.matrix
+            try:
+                Ms[0, 0] = Ms[0, 0] + 5
+                Ms[Ms.shape[0] - 1, 0] = 7
+            except Exception:
+                ctx.mon.note("reread:matrix-handed-out-is-immutable")
+            for j, y in enumerate(gates):
+                again = GC.to_np(y.matrix)
+                ctx.check("matrix-reread", again.shape == first[j].shape and L.maxdiff(again, first[j]) <= 1e-12 * max(1.0, float(np.abs(first[j]).max())),
+                          lambda: f"the caller edited in place the matrix that ({x}).matrix had handed out; ({y}).matrix, asked again, "
+                                  f"differs from what it was by {L.maxdiff(again, first[j]):.3e}")
+        ctx.mon.note("reread:gates-asked-again-after-the-caller-edited-a-handed-out-matrix")
+        return
+    if cls == "after_failure":
+        # a request that RAISES for a good reason (the inverse of a singular matrix; through a hashable gate object
+        # and through a custom definition, plain and below a control), and then forty further, perfectly legal power /
+        # exponential gates in the same process: bookkeeping that the failed evaluation left behind must not make a
+        # later legal request fail or answer for another gate
+        from orquestra.quantum import circuits as C
+        from orquestra.quantum.circuits import _gates as G
+
+        def projector():
+            return sympy.Matrix([[1, 0], [0, 0]])
+
+        kind = rng.choice(["factory", "factory", "custom"])
+        if kind == "factory":
+            base = G.MatrixFactoryGate(f"Proj{ctx.index % 3}", projector, (), 1)
+        else:
+            base = C.CustomGateDefinition(f"ProjDef{ctx.index % 3}", sympy.Matrix([[1, 0], [0, 0]]), ())()
+        bad = base.power(rng.choice([-1, -2]))
+        if rng.random() < 0.4:
+            bad = bad.controlled(1)
+        ctx.describe(f"after_failure {kind} {bad} then 40 legal gates", True)
+        try:
+            bad.matrix
+            ctx.check("singular-inverse-refused", False, f"({bad}).matrix of a singular matrix returned a matrix")
+        except Exception:
+            ctx.mon.note("after_failure:a-legitimately-failing-evaluation-happened")
+        pool = [C.RX, C.RY, C.PHASE, C.RZ]
+        for j in range(40):
+            gj = pool[j % 4](round(0.01 * (j + 1) + rng.random() * 1e-3, 6))
+            mj = [("power_int", rng.choice([2, 3])), ("power_int", -1), ("exp",)][j % 3 if pool[j % 4] is not C.RZ else 0]
+            _run_chain(ctx, gj, f"{gj}", [mj])
         return
     if cls == "k8_targets":
         # keep the known finding K8 observed: the exponential of the inverse of a 4 x 4 Jordan block with eigenvalue
